@@ -348,6 +348,13 @@ static vector<pair<string, function<void()>>> StressCases() {
     files["n1000"] = "x = 1\n";
     v.push_back({"include nesting depth 1000", manifest_files(files)});
   }
+  {
+    // ... and far beyond what any project has: the parser calls itself once per level (w5_C13_2)
+    map<string, string> files;
+    for (int i = 0; i < 40000; ++i) files[i ? "n" + to_string(i) : "build.ninja"] = "include n" + to_string(i + 1) + "\n";
+    files["n40000"] = "x = 1\n";
+    v.push_back({"include nesting depth 40000", manifest_files(files)});
+  }
   // a directory where a file is expected: opening it works, reading it fails (EISDIR) -- through the real ReadFile()
   for (const char* how : {"include sub\n", "subninja sub\n", "rule r\n  command = c\n  depfile = sub\nbuild a: r in\n",
                           "rule r\n  command = c\nbuild a: r in || sub\n  dyndep = sub\n"}) {
